@@ -20,6 +20,9 @@ impl Command {
 /*@fn file=src/command/mod.rs impl="impl Command" name=fprd canary=0
     ensures r.command == (Reads::Fprd { address, register })
 @*/
+/*@fn file=src/command/mod.rs impl="impl Command" name=fpwr canary=0
+    ensures r.command == (Writes::Fpwr { address, register }), r.wkc == Some(1u16), r.len_override is None
+@*/
 /*@fn file=src/command/mod.rs impl="impl Command" name=lrw canary=0
     ensures r.command == (Writes::Lrw { address })
 @*/
